@@ -577,6 +577,11 @@ class GenericPlainRegistry(Generic[QuantityT, UnitT], metaclass=RegistryMeta):
 
         self._helper_adder(definition, self._units, self._units_casei)
 
+        # A string parsed before this definition existed (e.g. as prefix + unit)
+        # must not keep its cached meaning.
+        for key in (definition.name, definition.symbol, *definition.aliases):
+            self._cache.parse_unit.pop(key, None)
+
     def load_definitions(
         self, file: Iterable[str] | str | pathlib.Path, is_resource: bool = False
     ):
